@@ -153,7 +153,7 @@ theorem gd4 (a b c d e : Dec) : (#[a, b, c, d, e] : Array Dec).getD 4 noDec = e 
 theorem step_lit (w n : Nat) (ls : Lens) (color : Nat) (tb : Tabs) (t : List Nat × Nat) (h : TokOK color tb ls t)
     (i : Nat) (rev : List Nat) (cache : Array Nat) (rest : List Nat) :
     step (encImg w n ls) i rev cache (litBits tb t.1 ++ rest) = some (i + 1, pack t.1 :: rev, cache, rest) := by
-  unfold step
+  unfold step stepG
   simp only [group_enc, gd0, gd1, gd2, gd3, specDec]
   unfold litBits
   simp only [List.append_assoc]
@@ -194,7 +194,7 @@ theorem step_run (w n : Nat) (ls : Lens) (color : Nat) (tb : Tabs) (t : List Nat
   have hs := (h.run hrun).2.2
   have hd : decodeSymbol (oneHot 40 1) rest = some (1, rest) := decodeSymbol_oneHot 40 1 (by decide) rest
   have hpv1 : prefixValue 1 rest = some (2, rest) := by unfold prefixValue; simp
-  unfold step
+  unfold step stepG
   simp only [group_enc, gd0, gd4, specDec]
   unfold runBits
   rw [if_neg (by omega)]
